@@ -71,7 +71,7 @@ Judge(j) ==
             /\ (DefaultParams(e) /\ (e.dres # e.res \/ e.dtext # e.text)) => Report(j, "C16", <<"to_string differs from serialize_xml_string(default)">>)
             /\ (e.res = "ok" /\ e.decl = 0 /\ ~e.indent /\ (e.tokres # "ok" \/ Flatten(e.toks) # e.text))
                   => Report(j, "C16", <<"token stream does not spell the string", e.tokres>>)
-            /\ (e.res = "ok" /\ e.decl = 0 /\ e.indent /\ (e.ptokres # "ok" \/ FlattenPretty(e.ptoks) # e.text))
+            /\ (e.res = "ok" /\ e.decl = 0 /\ e.indent /\ (e.ptokres # "ok" \/ ~PrettySpells(e.ptoks, e.text)))
                   => Report(j, "C16", <<"pretty token stream does not spell the pretty string", e.ptokres>>)
             /\ (e.res = "ok" /\ e.tokres = "ok" /\ e.outres = "ok"
                   /\ [q \in 1..Len(e.toks) |-> <<e.toks[q].n, e.toks[q].k>>] # [q \in 1..Len(e.outs) |-> <<e.outs[q].n, e.outs[q].k>>])
